@@ -29,6 +29,7 @@
 #include <ompl/util/Console.h>
 #include <ompl/util/RandomNumbers.h>
 #include <algorithm>
+#include <chrono>
 #include <memory>
 
 namespace ob = ompl::base;
@@ -672,7 +673,7 @@ namespace
         pl->solve(ptc);
         if (!pdef->hasExactSolution()) return false;
         auto p = std::dynamic_pointer_cast<og::PathGeometric>(pdef->getSolutionPath());
-        if (!p || p->getStateCount() == 0) return false;
+        if (!p || p->getStateCount() < 2) return false;  // start inside the goal: a one-state path, see riskyCase()
         in.path = std::make_shared<og::PathGeometric>(*p);
         in.goal = gs;
         in.goalKind = 1;
@@ -752,6 +753,9 @@ namespace
             k = IN_ZIG;
         }
         in.kind = k;
+        // a walk can get stuck at its first state (e.g. every Dubins curve from there leaves the box): try again elsewhere
+        for (int attempt = 0; attempt < 10; ++attempt)
+        {
         in.path = std::make_shared<og::PathGeometric>(w.si);
         og::PathGeometric &p = *in.path;
         switch (k)
@@ -807,7 +811,9 @@ namespace
             default:
                 break;
         }
-        if (p.getStateCount() == 0) return false;
+        if (k == IN_ONE || p.getStateCount() >= 2) break;
+        }
+        if (in.path->getStateCount() < (k == IN_ONE ? 1u : 2u)) return false;
         makeGoal(w, rng, in);
         return true;
     }
@@ -885,8 +891,11 @@ namespace
         Sink &sink;
         const World &w;
         long c;
+        bool fired = false;  // one routine application reports its first failing clause only (causes, not consequences)
         void viol(const std::string &clause, const std::string &routine, const std::string &detail, J j)
         {
+            if (fired) return;
+            fired = true;
             std::string key = "C17:" + clause + ":" + routine;
             if (!detail.empty()) key += ":" + detail;
             if (!w.space->hasSymmetricInterpolate()) key += ":asymmetric";
@@ -906,6 +915,38 @@ namespace
         return out;
     }
 
+    // The value of the clearance objective (minimum clearance along the curve) evaluated at a quarter of the resolution,
+    // independently of how the curve is cut into segments. MaximizeMinClearanceObjective itself samples one resolution
+    // length apart (and skips the first state of every motion), so its value moves by up to a resolution length when a
+    // segment is merely split; the routine's own decisions are granted 2 resolution lengths (worseThan).
+    double denseMinClearance(const World &w, const og::PathGeometric &p)
+    {
+        double c = std::numeric_limits<double>::infinity();
+        ob::State *tmp = w.si->allocState();
+        for (size_t i = 0; i < p.getStateCount(); ++i)
+        {
+            // like the objective itself (initialCost is the identity, a motion's cost skips its first state) the very
+            // first state does not count: a path of one state has the identity cost +inf
+            if (i > 0) c = std::min(c, w.clearance(p.getState(i)));
+            if (i + 1 == p.getStateCount()) break;
+            const ob::State *a = p.getState(i), *b = p.getState(i + 1);
+            double u = w.units(a, b);
+            if (!std::isfinite(u)) continue;
+            int m = std::min(200000, std::max(1, (int)std::ceil(4.0 * u)));
+            for (int j = 1; j < m; ++j)
+            {
+                w.space->interpolate(a, b, (double)j / m, tmp);
+                c = std::min(c, w.clearance(tmp));
+            }
+        }
+        w.si->freeState(tmp);
+        return c;
+    }
+    double oracleCost(const World &w, ObjKind ok, const ob::OptimizationObjectivePtr &obj, const og::PathGeometric &p)
+    {
+        return ok == O_CLEAR ? denseMinClearance(w, p) : p.cost(obj).value();
+    }
+
     // is `worse` strictly worse than `ref` under the objective, beyond the tolerance the objective's evaluation has?
     // returns 0 = not worse, 1 = within the declared discretisation band (statistic), 2 = worse
     int worseThan(const World &w, ObjKind ok, double out, double in, size_t nseg, double len)
@@ -913,7 +954,7 @@ namespace
         if (std::isnan(out) || std::isnan(in)) return std::isnan(out) && !std::isnan(in) ? 2 : 0;
         if (ok == O_CLEAR)
         {
-            // larger is better; evaluated on samples one resolution length apart of a 1-Lipschitz field
+            // larger is better; the routine decides on samples one resolution length apart of a 1-Lipschitz field
             if (out >= in - 1e-9 * (1 + std::fabs(in))) return 0;
             return out < in - 2.0 * w.rlp ? 2 : 1;
         }
@@ -971,6 +1012,7 @@ namespace
             if (only >= 0 && r != only) return;
             if (r == R_BSPLINE && !w.metric) return;  // documented: not to be run on non-metric spaces
             const std::string rn = rName[r];
+            V.fired = false;
             // every routine application has its own random streams, so that `--routine r --only-case c` replays it
             Rng rng(caseSeed(a, c, 100 + r));
             ompl::RNG::setSeed(caseSeed(a, c, 200 + r) % 1000000000 + 1);
@@ -981,14 +1023,21 @@ namespace
             bool withGoal = r == R_BETTERGOAL || r == R_SIMPLIFY || r == R_SIMPLIFYMAX;
             og::PathSimplifier ps(w.si, withGoal ? in.goal : ob::GoalPtr(), o.forRoutine);
             og::PathGeometric q(P);
-            double costIn = costAware ? q.cost(o.forOracle).value() : 0;
+            double costIn = costAware ? oracleCost(w, o.kind, o.forOracle, q) : 0;
             bool ret = false, returned = true;
             unsigned req = 0;
             long ptcEvals = 0, ptcBudget = 0;
             mv->ok.clear();
             mv->rec = true;
             J par;
-            o.budget.arm(60000);
+            // legitimate runs need a few thousand motion-cost evaluations at most; a clearance evaluation interpolates the motion
+            {
+                long nodes = (long)n0 + 45;
+                long lim = o.kind == O_CLEAR ? 40000 : 400000;
+                if (r == R_ROPE && o.kind == O_CLEAR) lim = 2000 + 2 * nodes * nodes;
+                if (r == R_SIMPLIFY || r == R_SIMPLIFYMAX) lim = std::numeric_limits<long>::max() / 4;  // bounded by construction
+                o.budget.arm(lim);
+            }
             try
             {
                 auto steps = [&](int hi) { return rng.coin(0.3) ? 0u : (unsigned)rng.range(1, hi); };
@@ -1109,7 +1158,7 @@ namespace
             sink.count("c17_run_" + rn);
             sink.count("c17_routine_runs");
             if (ret && r != R_SIMPLIFY && r != R_SIMPLIFYMAX) sink.count("c17_changed_" + rn);
-            par.str("objective", objName[o.kind]).str("input", inName[in.kind]).i("goalKind", in.goalKind);
+            par.str("objective", objName[o.kind]).str("input", inName[in.kind]).i("goalKind", in.goalKind).b("ret", ret);
 
             const size_t n1 = q.getStateCount();
             if (n1 == 0)
@@ -1140,7 +1189,10 @@ namespace
             long wseg = -1;
             double d1 = denseWorst(w, q, ds, &wseg);
             sink.maxstat("c17_worst_invalid_stretch_out", d1);
-            if (d1 > 2.0)
+            const bool declaredInvalid = (r == R_SIMPLIFY || r == R_SIMPLIFYMAX) && !ret;
+            if (d1 > 2.0 && declaredInvalid)
+                sink.count("c17_stat_simplify_false_with_invalid_stretch");  // the routine itself said: not valid
+            else if (d1 > 2.0)
             {
                 V.viol("invalid-stretch", rn, "",
                        J().num("stretch_in_resolution_lengths", d1).num("input_stretch", d0).i("worst_segment", wseg)
@@ -1155,8 +1207,8 @@ namespace
             }
             if (!returned)
             {
-                // the routine was cut off by the call budget of the objective: it had not come back after 60000 motion
-                // cost evaluations. What it had made of the caller's path by then is still judged by the cost clause.
+                // the routine was cut off by the call budget of the objective: it had not come back after the
+                // number of motion cost evaluations armed above. What it had made of the caller's path by then is still judged by the cost clause.
                 sink.count("c17_not_returned_" + rn + "_" + objName[o.kind]);
             }
             const double L1 = q.length();
@@ -1178,14 +1230,14 @@ namespace
                 double costOut;
                 try
                 {
-                    costOut = q.cost(o.forOracle).value();
+                    costOut = oracleCost(w, o.kind, o.forOracle, q);
                     sink.count("c17_cost_checks");
                     sink.count(std::string("c17_cost_checks_") + objName[o.kind]);
                     int wv = worseThan(w, o.kind, costOut, costIn, n0 + n1, L0 + L1);
                     if (wv == 1)
                     {
                         sink.count("c17_clearance_within_discretisation_band");
-                        sink.maxstat("c17_clearance_band_worst_in_resolution_lengths", (costIn - costOut) / w.rlp);
+                        sink.maxstat("c17_clearance_band_worst_in_resolution_lengths_" + rn, (costIn - costOut) / w.rlp);
                     }
                     if (wv == 2)
                     {
@@ -1287,6 +1339,7 @@ namespace
             ObjSel o;
             drawObjective(w, rng, o, true);
             const std::string rn = "PathHybridization";
+            V.fired = false;
             std::vector<og::PathGeometricPtr> paths;
             paths.push_back(std::make_shared<og::PathGeometric>(P));
             int np = rng.range(1, 4);
@@ -1325,7 +1378,7 @@ namespace
                 paths.push_back(p);
             }
             if (rng.coin(0.25)) paths.push_back(std::make_shared<og::PathGeometric>(P));  // an equal copy
-            o.budget.arm(400000);
+            o.budget.arm(o.kind == O_CLEAR ? 60000 : 400000);
             try
             {
                 og::PathHybridization hy(w.si, o.forOracle);
@@ -1343,7 +1396,7 @@ namespace
                 {
                     attempts += H->recordPath(p, rng.coin());
                     if (rng.coin(0.15)) H->recordPath(p, rng.coin());  // recording the same path twice is a no-op
-                    double cst = p->cost(o.forOracle).value();
+                    double cst = oracleCost(w, o.kind, o.forOracle, *p);
                     if (!haveBest || o.forOracle->isCostBetterThan(ob::Cost(cst), ob::Cost(best))) best = cst;
                     haveBest = true;
                 }
@@ -1358,7 +1411,7 @@ namespace
                     V.viol("hybrid-worse", rn, objName[o.kind], J().str("what", "no hybrid path").obj("params", par));
                 else
                 {
-                    double hc = hp->cost(o.forOracle).value();
+                    double hc = oracleCost(w, o.kind, o.forOracle, *hp);
                     size_t nseg = hp->getStateCount();
                     double len = hp->length();
                     for (auto &p : paths)
@@ -1418,7 +1471,11 @@ int main(int argc, char **argv)
     {
         if (!mine(a, c) || !sink.wanted(c)) continue;
         sink.begin(c);
+        auto t0 = std::chrono::steady_clock::now();
         runCase(sink, a, c);
+        double dt = std::chrono::duration<double>(std::chrono::steady_clock::now() - t0).count();
+        sink.maxstat("c17_case_seconds_max", dt);  // statistic only, never part of a decision
+        if (a.get("trace") == "1" || dt > 20) fprintf(stderr, "case %ld took %.2f s\n", c, dt);
     }
     sink.done();
     return 0;
